@@ -35,6 +35,9 @@ def plan(tier, seed):
             specs.append({"stratum": f"family-{fam}", "family": fam, "n": per_f, "k": k, "clean": True})
     specs.append({"stratum": "family-mset-nodup", "family": "mset", "n": per_f, "k": 0, "clean": True, "nodup": True})
     specs.append({"stratum": "family-mset-dup", "family": "mset", "n": per_f, "k": 0, "case_timeout": 10})
+    for k in range(2 if q else 8):
+        specs.append({"stratum": "json-big-costs", "family": "json", "n": 8 if q else 40, "k": k, "clean": True, "bigcost": True,
+                      "case_timeout": 120, "shrink": False})
     if not q:
         for k in range(8):
             specs.append({"stratum": "json-large-documents", "family": "json", "n": 250, "k": k, "clean": True, "profile": "large",
@@ -70,6 +73,27 @@ def gen_cases(spec, ctx):
                         for ds, le in gen.OPTION_GRID:
                             yield {"family": "json", "a": a, "b": b, "ds": ds, "le": le}
                     idx += 1
+        return
+    if spec.get("bigcost"):
+        # accumulated costs that cross the boundaries of small integer types (2**16): long lists of long strings that are
+        # truncated / extended / lightly edited (cheap to diff: equal prefixes and suffixes are shared)
+        for _ in range(spec["n"]):
+            n = r.choice([300, 400, 700])
+            ln = r.choice([120, 200, 260])
+            base = ["".join(r.choice("abcdefgh") for _ in range(ln)) for _ in range(n)]
+            kind = r.choice(["truncate", "extend", "cut-middle"])
+            if kind == "truncate":
+                a, b = base, base[:r.randint(0, n // 3)]
+            elif kind == "extend":
+                a, b = base[:r.randint(0, n // 3)], base
+            elif kind == "cut-middle":
+                i = r.randint(0, n // 4)
+                a, b = base, base[:i] + base[-i - 1:]
+            if r.random() < 0.5:
+                a, b = {"rows": a, "meta": 1}, {"rows": b, "meta": 1}
+            # (positional comparison of a list cut in the middle would pair hundreds of unrelated long strings: keep it cheap)
+            ds, le = r.choice(gen.DS), ("on" if kind == "cut-middle" else r.choice(["on", "off"]))
+            yield {"family": "json", "a": a, "b": b, "ds": ds, "le": le}
         return
     fam = spec["family"]
     prof = gen.LARGE if spec.get("profile") == "large" else None
